@@ -42,6 +42,7 @@ def gen(rng, tier, idx):
     scn = workloads.session_scenario(rng, purpose="listing")
     scn["observe"] = True
     scn["regime"] = "clean" if rng.chance(55) else "fault"
+    scn.pop("discard_stdout", None)      # this check reads what the tool prints
     if scn["regime"] == "fault" and scn.get("script") is not None:
         if rng.chance(50):
             toks = G.failing_op(rng)
